@@ -548,6 +548,53 @@ fn build_float(kind: &str, kv: &KV) -> Option<Box<dyn Inst>> {
     }
 }
 
+// ---- unit-system wrapper (C20) ----------------------------------------------------------
+
+#[cfg(feature = "units")]
+mod units {
+    use super::*;
+    use dimensioned::si;
+    use dimensioned::traits::Dimensioned;
+    use signalo_filters::unit_system::UnitSystem;
+
+    impl<K> IO for UnitSystem<K>
+    where
+        K: IO,
+    {
+        type In = K::In;
+        type Out = K::Out;
+    }
+    /// the wrapped filter maps `Q -> Q`; the wrapper is driven with metres and must answer in metres
+    impl<K> FK for UnitSystem<K>
+    where
+        K: FK + IO<In = Q, Out = Q> + Filter<Q, Output = Q> + Reset,
+    {
+        fn filt(&mut self, a: &[Val]) -> String {
+            let x: Q = FromArgs::from_args(a);
+            let y: si::Meter<Q> = Filter::filter(self, si::Meter::new(x));
+            y.value_unsafe().r()
+        }
+        fn rst(self) -> Self {
+            Reset::reset(self)
+        }
+        fn gutsrt_(&self) -> Self {
+            FromGuts::from_guts(IntoGuts::into_guts(self.clone()))
+        }
+        fn guts_(&self, field: &str) -> String {
+            self.clone().into_guts().inner.guts_(field)
+        }
+        fn cfg_(&self) -> String {
+            self.clone().into_guts().inner.cfg_()
+        }
+    }
+    pub fn wrap_unit<K>(k: K) -> Box<dyn Inst>
+    where
+        K: FK + IO<In = Q, Out = Q> + Filter<Q, Output = Q> + Reset,
+    {
+        Box::new(UnitSystem::<K>::from(k))
+    }
+}
+
 // ---- construction -----------------------------------------------------------------------
 
 /// wrap (or not) and box
@@ -562,6 +609,20 @@ where
     }
 }
 
+/// `finish` for kinds mapping one exact rational to one exact rational: these may also sit inside the unit wrapper
+fn finish_q<K>(k: K, wrap: Option<&str>) -> Box<dyn Inst>
+where
+    K: FK + IO<In = Q, Out = Q> + Filter<Q, Output = Q> + Reset,
+{
+    match wrap {
+        #[cfg(feature = "units")]
+        Some("unit") => units::wrap_unit(k),
+        #[cfg(not(feature = "units"))]
+        Some("unit") => panic!("harness: built without the unit-system wrappers"),
+        w => finish(k, w),
+    }
+}
+
 pub fn widths() -> &'static [usize] {
     &[1, 2, 3, 4, 5, 6, 7, 8, 9, 16]
 }
@@ -570,9 +631,9 @@ pub fn build(kind: &str, kv: &KV) -> Box<dyn Inst> {
     if let Some(b) = build_float(kind, kv) {
         return b;
     }
-    if kind == "cache" {
+    if kind == "cache" || kind == "unit" {
         let inner = kv_str(kv, "inner").to_string();
-        return build_inner(&inner, kv, Some("cache"));
+        return build_inner(&inner, kv, Some(kind));
     }
     build_inner(kind, kv, None)
 }
@@ -587,9 +648,9 @@ fn out3(kv: &KV) -> [Q; 3] {
 fn build_inner(kind: &str, kv: &KV, wrap: Option<&str>) -> Box<dyn Inst> {
     let t = kv.get("T").map(|s| s.as_str()).unwrap_or("q");
     match (kind, t) {
-        ("median", "q") => with_n!(kv_n(kv, "N"), N => finish(Median::<Q, N>::default(), wrap)),
+        ("median", "q") => with_n!(kv_n(kv, "N"), N => finish_q(Median::<Q, N>::default(), wrap)),
         ("median", "f64") => with_n!(kv_n(kv, "N"), N => finish(Median::<f64, N>::default(), wrap)),
-        ("mean", "q") => with_n!(kv_n(kv, "N"), N => finish(Mean::<Q, N>::default(), wrap)),
+        ("mean", "q") => with_n!(kv_n(kv, "N"), N => finish_q(Mean::<Q, N>::default(), wrap)),
         ("mean", "i64") => with_n!(kv_n(kv, "N"), N => finish(Mean::<i64, N>::default(), wrap)),
         ("median", "tracked") => with_n!(kv_n(kv, "N"), N => finish(Median::<Tracked, N>::default(), wrap)),
         ("mean", "tracked") => with_n!(kv_n(kv, "N"), N => finish(Mean::<Tracked, N>::default(), wrap)),
@@ -601,22 +662,22 @@ fn build_inner(kind: &str, kv: &KV, wrap: Option<&str>) -> Box<dyn Inst> {
             let c: Vec<Tracked> = kv_qs(kv, "c").into_iter().map(Tracked::new).collect();
             with_n!(c.len(), N => finish(Convolve::<Tracked, N>::with_config(ConvolveConfig { coefficients: arr(c) }), wrap))
         }
-        ("max", _) => with_n!(kv_n(kv, "N"), N => finish(Max::<Q, N>::default(), wrap)),
-        ("min", _) => with_n!(kv_n(kv, "N"), N => finish(Min::<Q, N>::default(), wrap)),
+        ("max", _) => with_n!(kv_n(kv, "N"), N => finish_q(Max::<Q, N>::default(), wrap)),
+        ("min", _) => with_n!(kv_n(kv, "N"), N => finish_q(Min::<Q, N>::default(), wrap)),
         ("bounds", _) => with_n!(kv_n(kv, "N"), N => finish(Bounds::<Q, N>::default(), wrap)),
         ("convolve", _) => {
             let c = kv_qs(kv, "c");
-            with_n!(c.len(), N => finish(Convolve::<Q, N>::with_config(ConvolveConfig { coefficients: arr(c) }), wrap))
+            with_n!(c.len(), N => finish_q(Convolve::<Q, N>::with_config(ConvolveConfig { coefficients: arr(c) }), wrap))
         }
         ("convolve_norm", _) => {
             let c = kv_qs(kv, "c");
-            with_n!(c.len(), N => finish(Convolve::<Q, N>::normalized(ConvolveConfig { coefficients: arr(c) }), wrap))
+            with_n!(c.len(), N => finish_q(Convolve::<Q, N>::normalized(ConvolveConfig { coefficients: arr(c) }), wrap))
         }
-        ("delay", _) => with_n!(kv_n(kv, "N"), N => finish(Delay::<Q, N>::default(), wrap)),
+        ("delay", _) => with_n!(kv_n(kv, "N"), N => finish_q(Delay::<Q, N>::default(), wrap)),
         ("meanvar", _) => with_n!(kv_n(kv, "N"), N => finish(MeanVariance::<Q, N>::default(), wrap)),
-        ("differentiate", _) => finish(Differentiate::<Q>::default(), wrap),
-        ("integrate", _) => finish(Integrate::<Q>::default(), wrap),
-        ("kalman", _) => finish(
+        ("differentiate", _) => finish_q(Differentiate::<Q>::default(), wrap),
+        ("integrate", _) => finish_q(Integrate::<Q>::default(), wrap),
+        ("kalman", _) => finish_q(
             Kalman::<Q>::with_config(KalmanConfig {
                 r: kv_q(kv, "r"),
                 q: kv_q(kv, "q"),
@@ -626,12 +687,12 @@ fn build_inner(kind: &str, kv: &KV, wrap: Option<&str>) -> Box<dyn Inst> {
             }),
             wrap,
         ),
-        ("alphabeta", _) => finish(
+        ("alphabeta", _) => finish_q(
             AlphaBeta::<Q>::with_config(AbConfig { alpha: kv_q(kv, "alpha"), beta: kv_q(kv, "beta") }),
             wrap,
         ),
-        ("ema", _) => finish(Ema::<Q>::with_config(EmaConfig { inverse_width: kv_q(kv, "w") }), wrap),
-        ("emedian", _) => finish(
+        ("ema", _) => finish_q(Ema::<Q>::with_config(EmaConfig { inverse_width: kv_q(kv, "w") }), wrap),
+        ("emedian", _) => finish_q(
             Emed::<Q>::with_config(EmedConfig {
                 pre: EmaConfig { inverse_width: kv_q(kv, "pre") },
                 mid: kv_q(kv, "mid"),
@@ -640,7 +701,7 @@ fn build_inner(kind: &str, kv: &KV, wrap: Option<&str>) -> Box<dyn Inst> {
             wrap,
         ),
         ("emeanvar", _) => finish(Emv::<Q>::with_config(EmvConfig { inverse_width: kv_q(kv, "w") }), wrap),
-        ("threshold", "q") => finish(
+        ("threshold", "q") => finish_q(
             Threshold::<Q, Q>::with_config(ThresholdConfig { threshold: kv_q(kv, "thr"), outputs: out2(kv) }),
             wrap,
         ),
@@ -651,7 +712,7 @@ fn build_inner(kind: &str, kv: &KV, wrap: Option<&str>) -> Box<dyn Inst> {
             }),
             wrap,
         ),
-        ("schmitt", "q") => finish(
+        ("schmitt", "q") => finish_q(
             Schmitt::<Q, Q>::with_config(SchmittConfig {
                 thresholds: [kv_q(kv, "low"), kv_q(kv, "high")],
                 outputs: out2(kv),
@@ -668,7 +729,7 @@ fn build_inner(kind: &str, kv: &KV, wrap: Option<&str>) -> Box<dyn Inst> {
             }),
             wrap,
         ),
-        ("debounce", _) => finish(
+        ("debounce", _) => finish_q(
             Debounce::<Q, Q>::with_config(DebounceConfig {
                 threshold: kv_n(kv, "thr"),
                 predicate: kv_q(kv, "pred"),
@@ -676,9 +737,9 @@ fn build_inner(kind: &str, kv: &KV, wrap: Option<&str>) -> Box<dyn Inst> {
             }),
             wrap,
         ),
-        ("slopes", "q") => finish(Slopes::<Q, Q>::with_config(SlopesConfig { outputs: out3(kv) }), wrap),
+        ("slopes", "q") => finish_q(Slopes::<Q, Q>::with_config(SlopesConfig { outputs: out3(kv) }), wrap),
         ("slopes", "f64") => finish(Slopes::<f64, Q>::with_config(SlopesConfig { outputs: out3(kv) }), wrap),
-        ("peaks", "q") => finish(Peaks::<Q, Q>::with_config(PeaksConfig { outputs: out3(kv) }), wrap),
+        ("peaks", "q") => finish_q(Peaks::<Q, Q>::with_config(PeaksConfig { outputs: out3(kv) }), wrap),
         ("peaks", "f64") => finish(Peaks::<f64, Q>::with_config(PeaksConfig { outputs: out3(kv) }), wrap),
         ("peaks_slopes", _) => finish(Peaks::<Slope, Q>::with_config(PeaksConfig { outputs: out3(kv) }), wrap),
         (k, t) => panic!("harness: unknown kind {} (T={})", k, t),
